@@ -181,6 +181,7 @@ static int TakeStartTimerFired();
 static void BeginCase(bool host, int prod)
 {
 	EndCase();
+	fflush(stdout); /* whole cases reach the output; this process is the only writer of its stdout and never forks */
 	/* The process-wide clock never runs backwards (the start timer lives as long as the process). */
 	Clock(g_Max + 5);
 	Timer::VerifFireDue(g_Max);
